@@ -189,7 +189,8 @@ Record xdatetime := mk_xdatetime {
 
 Definition date_from_string (s : str) : option xdate :=
   match parse_date_args s fmt_DATE with
-  | Some [Some y; Some m; Some d; o] => Some (mk_xdate y m d o)
+  | Some [Some y; Some m; Some d; o] =>
+      if validate_date y m d then Some (mk_xdate y m d o) else None
   | _ => None
   end.
 
